@@ -170,12 +170,17 @@ func (c *localCache) GetKeys(ctx context.Context, name string, store cachepb.Sto
 				if e == nil {
 					continue //
 				}
-				outCh <- &Update{
+				select {
+				case <-ctx.Done():
+					// the consumer might be gone, do not block forever
+					return
+				case outCh <- &Update{
 					path:     e.P,
 					value:    nil,
 					priority: e.Priority,
 					owner:    e.Owner,
 					ts:       int64(e.Timestamp),
+				}:
 				}
 			}
 		}
@@ -213,12 +218,17 @@ func (c *localCache) ReadCh(ctx context.Context, name string, opts *Opts, paths 
 				if e == nil {
 					continue //
 				}
-				outCh <- &Update{
+				select {
+				case <-ctx.Done():
+					// the consumer might be gone, do not block forever
+					return
+				case outCh <- &Update{
 					path:     e.P,
 					value:    e.V,
 					priority: e.Priority,
 					owner:    e.Owner,
 					ts:       int64(e.Timestamp),
+				}:
 				}
 			}
 		}
